@@ -150,7 +150,7 @@ def addrOps : List (String × Op) := [
       if !privValid c b then pure "err Value"
       else match pubOfPriv c b with
         | some k => pure s!"ok {outBytes b} {outBytes k}"
-        | none => pure "err ThirdParty"
+        | none => pure "err Value"
     | _ => none)
 ]
 where argCurve' (s : String) : Option CurveT :=
